@@ -66,6 +66,7 @@ func TestCheck(t *testing.T) {
 
 	var tot stats
 	var trees, runs, fwd, mStatic, mReflect, copies, converts, pipes, arrays, skips, neverClose int64
+	var typedTrees, filterProbes, arrayProbes, convTypeChange, ifaceSources, arrSpare, arrShared, arrMerges int64
 	aborted := false
 	rep.Cases(perShard, func(idx int64, rng *mon.Rand) {
 		if aborted {
@@ -77,12 +78,29 @@ func TestCheck(t *testing.T) {
 		fwd += int64(tr.m.nFwd)
 		mStatic += int64(tr.m.nStatic)
 		mReflect += int64(tr.m.nReflect)
+		arrMerges += int64(tr.m.nArrMerge)
+		if tr.Typed {
+			typedTrees++
+		}
+		switch tr.Probe {
+		case "filter":
+			filterProbes++
+		case "array":
+			arrayProbes++
+		}
+		perBuf := map[int]int{}
 		for _, op := range tr.Ops {
+			if op.Src != nil && op.Src.Elem.iface() {
+				ifaceSources++
+			}
 			switch op.Kind {
 			case "copy":
 				copies++
 			case "convert":
 				converts++
+				if op.Conv.From != op.Conv.To {
+					convTypeChange++
+				}
 			case "pipe":
 				pipes++
 				if op.Src.NeverClose {
@@ -90,6 +108,12 @@ func TestCheck(t *testing.T) {
 				}
 			case "array":
 				arrays++
+				if op.Src.SliceCap > len(op.Src.Items) {
+					arrSpare++
+				}
+				if perBuf[op.Src.Buf]++; perBuf[op.Src.Buf] == 2 {
+					arrShared++
+				}
 			case "skip":
 				skips++
 			}
@@ -161,6 +185,16 @@ func TestCheck(t *testing.T) {
 	rep.Count("merge_static_select", mStatic)
 	rep.Count("merge_reflect_select", mReflect)
 	rep.Count("forwarder_goroutines_expected", fwd)
+	rep.Count("trees_with_typed_streams", typedTrees)
+	rep.Count("trees_filter_probe", filterProbes)
+	rep.Count("trees_array_probe", arrayProbes)
+	rep.Count("sources_with_interface_element_type", ifaceSources)
+	rep.Count("converters_changing_element_type", convTypeChange)
+	rep.Count("nil_items_delivered", tot.nilItems)
+	rep.Count("array_sources_with_spare_capacity", arrSpare)
+	rep.Count("caller_buffers_shared_by_array_sources", arrShared)
+	rep.Count("merges_of_two_or_more_array_readers", arrMerges)
+	rep.Count("caller_slice_cells_checked_after_run", tot.bufCells)
 	for i, n := range pointNames {
 		rep.Count("yield_point_"+n, yieldCnt[i].Load())
 	}
@@ -176,6 +210,14 @@ func TestCheck(t *testing.T) {
 		rep.Require("close_bound_checks_forwarded", 5)
 		rep.Require("leak_checks", 100)
 		rep.Require("copy_consistency_comparisons", 10)
+		rep.Require("nil_items_delivered", 200)
+		rep.Require("converters_changing_element_type", 100)
+		rep.Require("array_sources_with_spare_capacity", 100)
+		rep.Require("caller_buffers_shared_by_array_sources", 30)
+		rep.Require("merges_of_two_or_more_array_readers", 50)
+		rep.Require("caller_slice_cells_checked_after_run", 1000)
+		rep.Require("trees_filter_probe", 20)
+		rep.Require("trees_array_probe", 20)
 		for _, n := range []string{"send_enter", "send_select", "recv_enter", "close_send", "close_recv", "peek_enter",
 			"peek_after_once", "child_close", "parent_close", "multi_recv", "forward_loop"} {
 			rep.Require("yield_point_"+n, 50)
